@@ -66,6 +66,37 @@ pub fn decorate(spec: &Spec, ch: &mut Chooser, o: DecorOpts) -> Naming {
             }
         }
     }
+    if o.pool_names && !ch.is_trivial() && ch.pick(48) == 47 {
+        // length thresholds: one name of the file becomes 100 .. 70 000 characters long (it stays unique)
+        let n = [100, 255, 256, 300, 1000, 5000, 70_000][ch.pick(7)];
+        let tail = "x".repeat(n);
+        let nn = nm.nts.len();
+        let nt = nm.terms.len();
+        match ch.pick(4) {
+            0 => {
+                let i = ch.pick(nn);
+                nm.nts[i].push_str(&tail);
+            }
+            1 if nt > 0 => {
+                let i = ch.pick(nt);
+                nm.terms[i].push_str(&tail);
+            }
+            2 => nm.term_enum.push_str(&tail),
+            _ => {
+                // a variant or a field name
+                let i = ch.pick(nn);
+                if !nm.variants[i].is_empty() && ch.pick(2) == 0 {
+                    let j = ch.pick(nm.variants[i].len());
+                    nm.variants[i][j].push_str(&tail);
+                } else if let Some(per_var) = nm.fields[i].iter_mut().find(|v| !v.is_empty()) {
+                    let k = ch.pick(per_var.len());
+                    per_var[k].push_str(&tail);
+                } else {
+                    nm.nts[i].push_str(&tail);
+                }
+            }
+        }
+    }
     if o.attrs && !ch.is_trivial() {
         let mut id = 0;
         // a fresh marked attribute, or (1 in 5) a byte-identical repeat of the previous one on the same declaration,
@@ -78,7 +109,13 @@ pub fn decorate(spec: &Spec, ch: &mut Chooser, o: DecorOpts) -> Naming {
             } else if k == 2 {
                 list.push(["#[a]", "#[]", "#[derive(Debug)]", "#[x(y)]"][ch.pick(4)].to_string());
             } else {
-                list.push(layout::gen_attr(ch, *id).0);
+                let mut a = layout::gen_attr(ch, *id).0;
+                if ch.pick(64) == 63 {
+                    // a long attribute (300 / 5000 / 70 000 bytes, partly multi-byte), brackets stay balanced
+                    let n = [20usize, 330, 4600][ch.pick(3)];
+                    a.insert_str(2, &"doc = (é long) ".repeat(n));
+                }
+                list.push(a);
                 *id += 1;
             }
         };
